@@ -47,7 +47,7 @@ func vxStreamWFmeta(n int, streamPath string, twoStreams bool, mixed bool, metaP
 
 func vxNoFifoOrStreamFile(streamFiles []string) bool {
 	for _, p := range vxFSList("/") {
-		if strings.HasSuffix(p, ".fifo") {
+		if vxFSKind(p) == vxFifo {
 			return false
 		}
 	}
@@ -116,7 +116,7 @@ func VxH17() {
 	}
 	for i := 0; i < vxInvCount(); i++ {
 		c := vxInvCmd(i)
-		if strings.Contains(c, "r:") && strings.Contains(c, ".fifo") {
+		if strings.Contains(c, "r:") && (strings.Contains(c, ".c.txt") || strings.Contains(c, ".c2.txt")) { // the stream consumers' commands
 			nCons++
 			vxAssert(prodInv[vxInvReadInv(i, 0)], "C17.consumer-received-producers-bytes")
 		}
@@ -172,11 +172,18 @@ func VxH17leftover() {
 	k1 := vxRun(func() { wf.Run() })
 	vxAssume(k1 == "killed")
 	vxKillAt(-1)
-	vxAssume(vxFSKind("s1.txt.fifo") == vxFifo)
+	// (the FIFO is found by its kind, whatever the library calls it)
+	fifoPath := ""
+	for _, p := range vxFSList(".") {
+		if vxFSKind(p) == vxFifo {
+			fifoPath = p
+		}
+	}
+	vxAssume(fifoPath != "")
 	// the user removes the temp dirs but forgets the FIFO
-	fifo := vxFSIno("s1.txt.fifo")
+	fifo := vxFSIno(fifoPath)
 	vxFSRemoveTempDirsOnly()
-	vxAssume(vxFSIno("s1.txt.fifo") == fifo)
+	vxAssume(vxFSIno(fifoPath) == fifo)
 	wf2, _, _ := vxStreamWF(1, "s{p:k}.txt", false, false)
 	k2 := vxRun(func() { wf2.Run() })
 	vxReach("reran")
